@@ -165,7 +165,15 @@ impl<'p> Interp<'p> {
 				let a = args.remove(0);
 				self.builtin_method(a, item, vec![b], hint)
 			}
-			_ => unsup(format!("static function {}::{}", ty, item)),
+			_ => {
+				// method of a primitive used as a path: ValueType::abs(x), u8::max(a, b)
+				let th = self.resolve_name(ty);
+				if (th == "f64" || ITy::from_name(&th).is_some()) && !args.is_empty() {
+					let recv = args.remove(0);
+					return self.builtin_method(recv, item, args, hint);
+				}
+				unsup(format!("static function {}::{}", ty, item))
+			}
 		}
 	}
 
@@ -215,6 +223,18 @@ impl<'p> Interp<'p> {
 							let sd = (d as f64).sqrt().round() as i128;
 							if sn * sn == n && sd * sd == d {
 								let t = self.tm.rat(Rat::new(sn, sd).unwrap());
+								return self.mk_fl(t);
+							}
+						}
+					}
+				}
+				if name == "sqrt" {
+					if let Some(q) = self.tm.as_rat(r) {
+						// constant argument: the correctly rounded f64 result, exactly (as the compiler folds it)
+						let x = q.to_f64();
+						if q.d == 1 && q.n >= 0 && q.n < (1i128 << 52) {
+							if let Some(rr) = Rat::from_f64(x.sqrt()) {
+								let t = self.tm.rat(rr);
 								return self.mk_fl(t);
 							}
 						}
@@ -1589,9 +1609,10 @@ impl<'p> Interp<'p> {
 						}
 						self.assume(t)?;
 						// an assumption that contradicts the path ends it
-						match self.sol.as_mut().unwrap().check_pc() {
-							crate::solver::Res::Unsat => Err(Ctl::Infeasible),
-							_ => Ok(V::Unit),
+						if self.pc_feasible()? {
+							Ok(V::Unit)
+						} else {
+							Err(Ctl::Infeasible)
 						}
 					}
 					o => unsup(format!("assume on {}", o.brief())),
